@@ -9,15 +9,23 @@ V=$(cd "$(dirname "$0")/.." && pwd)
 R=${VERIF_REPO:-/repo}
 export VERIF_REPO=$R
 OUT=$V/seeded/MATRIX.md
+# SEEDS="C01-m5 C02-m6 ..." restricts the run to these seeds and APPENDS their rows (replacing older rows
+# of the same seeds) instead of rewriting the file
+if [ -n "$SEEDS" ] && [ -f $OUT ]; then
+  for s in $SEEDS; do grep -v "^| $s |" $OUT > $OUT.tmp; mv $OUT.tmp $OUT; done
+  echo "| _(rows below: $T tier, $(git -C $R rev-parse --short HEAD), verif $(git -C $V rev-parse --short HEAD))_ | | | |" >> $OUT
+else
 echo "# Seeded changes vs checks ($T tier, $(git -C $R rev-parse --short HEAD))" > $OUT
 echo >> $OUT
 echo "| seed | check | result | first signature |" >> $OUT
 echo "|---|---|---|---|" >> $OUT
+fi
 cd $R; git diff --quiet -- src || { echo "$R has local changes"; exit 2; }
 mkdir -p $V/build
 [ -f $V/build/asan/build.ninja ] || (cd $V && python3 vcheck.py setup > /dev/null)
 for d in $V/seeded/C*/; do
   s=$(basename $d)
+  if [ -n "$SEEDS" ]; then case " $SEEDS " in *" $s "*) ;; *) continue;; esac; fi
   checks=$(python3 -c "import json;print(' '.join(json.load(open('$d/meta.json'))['caught_by']))")
   git -C $R apply $d/patch.diff 2>/dev/null || { echo "| $s | - | PATCH DOES NOT APPLY | |" >> $OUT; echo "$s PATCH DOES NOT APPLY"; continue; }
   for c in $checks; do
